@@ -1,7 +1,7 @@
 #!/usr/bin/env python3
 """Run the registered checks against every seeded change under /verif/seeded and record what caught it.
 
-usage: seed_matrix.py [--tier quick] [names...]
+usage: seed_matrix.py [--tier quick] [--tree <scratch worktree of /repo>] [--missing] [names...]
 
 For each /verif/seeded/<id>/: `git -C /repo apply patch.diff`, run ./check <property> --tier <tier>,
 `git -C /repo reset --hard HEAD`.  Records exit code, the VIOLATION keys and wall time in
@@ -19,24 +19,33 @@ def main():
     tier = "quick"
     if "--tier" in args:
         i = args.index("--tier"); tier = args[i + 1]; del args[i:i + 2]
+    tree = "/repo"
+    if "--tree" in args:
+        i = args.index("--tree"); tree = args[i + 1]; del args[i:i + 2]
+    only_missing = "--missing" in args
+    if only_missing:
+        args.remove("--missing")
     names = args or sorted(os.path.basename(os.path.dirname(p)) for p in glob.glob(V + "/seeded/*/meta.json"))
-    if sh("git", "-C", "/repo", "status", "--porcelain", "--untracked-files=no").stdout.strip():
-        print("repo dirty"); sys.exit(2)
+    if sh("git", "-C", tree, "status", "--porcelain", "--untracked-files=no").stdout.strip():
+        print("tree dirty"); sys.exit(2)
+    env = dict(os.environ, VERIF_REPO=tree)
     for n in names:
         d = os.path.join(V, "seeded", n)
         meta = json.load(open(d + "/meta.json"))
         prop = meta["property"]
-        r = sh("git", "-C", "/repo", "apply", d + "/patch.diff")
+        if only_missing and tier in meta.get("detected_by", {}):
+            continue
+        r = sh("git", "-C", tree, "apply", d + "/patch.diff")
         if r.returncode:
             print(n, "PATCH-DOES-NOT-APPLY", r.stdout); continue
         t0 = time.time()
         try:
-            r = sh(V + "/check", prop, "--tier", tier, timeout=7200)
+            r = sh(V + "/check", prop, "--tier", tier, timeout=7200, env=env)
             out, rc = r.stdout, r.returncode
         except subprocess.TimeoutExpired as e:
             out, rc = (e.stdout or ""), 124
         finally:
-            sh("git", "-C", "/repo", "reset", "-q", "--hard", "HEAD")
+            sh("git", "-C", tree, "reset", "-q", "--hard", "HEAD")
         keys = re.findall(r"^\s*clause: (\S+)", out, re.M)
         nviol = len(re.findall(r"^VIOLATION ", out, re.M))
         meta.setdefault("detected_by", {})[tier] = {
